@@ -917,6 +917,50 @@ def c11_pull(ctx):
     return out
 
 
+@rule('C05-OUTSIDE', 'who-may-pull: in a parallel run only the worker tasks (and helpers reached only from them) take elements from the shared source')
+def c05_outside(ctx):
+    """The sweep of C11-PULL, as a rule of its own for the properties that speak of the elements rather than of the chunk size.  An
+    element that something other than a worker task pulls from the shared source - a "head search" on the calling thread before the
+    workers are spawned, a probe of the first element - is processed where none of the per-element rules looks: whether it is filtered,
+    visited once, counted, on which thread it runs, whether the early-exit protocol knows about its match (`head(..).or(par_find(..))`
+    starts the parallel search although the head already answered)."""
+    out = RuleOut('C05-OUTSIDE')
+    F = ctx.facts
+    S = ctx.slots
+    inside = set()
+    for tn in list(S.tasks) + list(S.seq_kernels):
+        inside.add(tn)
+        for cb in F.closures_in(F.bodies[tn], recursive=True):
+            inside.add(cb.name)
+
+    def only_from_tasks(name, seen):
+        if name in inside or name in seen:
+            return True
+        seen.add(name)
+        bd = F.bodies[name]
+        if bd.is_closure():
+            return only_from_tasks(bd.parent, seen) if bd.parent in F.bodies else False
+        cl = ctx.cg.callers(name, kinds=('direct', 'cha'))
+        return bool(cl) and all(only_from_tasks(cn, seen) for (cn, k, cbb) in cl)
+    n = 0
+    for b in F.bodies.values():
+        if b.name in inside:
+            continue
+        for bb, t in b.calls():
+            if not (is_coniter_call(t, PULL_SIZED) or is_coniter_call(t, PULL_ELEMENT) or (is_pull_call(t) and not is_buffered_next(t))):
+                continue
+            n += 1
+            if only_from_tasks(b.name, set()):
+                out.inst('C05-OUTSIDE/%s/%s' % (key_of(b), method(t)), True, 'helper reached only from tasks')
+                continue
+            key = 'C05-OUTSIDE/%s/%s' % (key_of(b), method(t))
+            out.inst(key, False, 'pull outside a worker task')
+            out.fail(key, '%s takes elements from the shared source with `%s` outside the worker tasks and the sequential kernels: what happens to those elements is judged by none of the per-element rules' % (key_of(b), method(t)), b.where(t.get('line')))
+    out.count('pulls_outside_task_bodies', n)
+    out.floor('tasks', len(S.tasks), 6 if not ctx.fixture else 0)
+    return out
+
+
 # ======================================================================================= C02 / C03 / C04 reductions
 def runner_reduce_sites(ctx):
     """(par entry body, bb, call record, task fns) for every call of a RunnerEntry that takes a `reduce` operator"""
